@@ -13,11 +13,17 @@
 (* (a layout rewrite changes the bytes, never the observation).            *)
 (* Level B: accessors leave traces in the object (dirty flags, memos); Bug *)
 (* selects variants in which a later save is affected by them.             *)
+(* A document is saved in one of two FORMS: a single zip file, or a        *)
+(* package folder (archives in Index.zip, other members as loose files).   *)
+(* form[f] is the form of file f; a package may be written over a package  *)
+(* and a zip over a zip, the two crossings are refused by iwork.py (a      *)
+(* FileFormatError, or the OSError of opening a folder as a zip file).     *)
+(* The property does not depend on the form (FormBlind).                   *)
 (***************************************************************************)
 EXTENDS Integers, Sequences, FiniteSets, TLC
-CONSTANTS Files, Kinds, Rewrites, D, Bug
-VARIABLES disk, layout, open, hist
-vars == <<disk, layout, open, hist>>
+CONSTANTS Files, Kinds, Rewrites, Forms, D, Bug
+VARIABLES disk, layout, form, open, hist
+vars == <<disk, layout, form, open, hist>>
 Orig == "o"
 None == "none"
 Closed == [obs |-> None, acc |-> {}]
@@ -25,29 +31,38 @@ IsOpen == open.obs # None
 Ev(r) == hist' = Append(hist, r)
 \* what an accessor does to the object (Level B): nothing observable - unless Bug says otherwise
 Touched(obs, k) == IF Bug = "AccessMutates" /\ k = "style" THEN "o-styles-rewritten" ELSE obs
-Written(o) == IF Bug = "DirtySave" /\ "formatted" \in o.acc THEN "o-memo-written-back" ELSE o.obs
+Written(o, fm) == IF Bug = "DirtySave" /\ "formatted" \in o.acc THEN "o-memo-written-back"
+                  ELSE IF Bug = "PackageDropsLooseFiles" /\ fm = "package" THEN "o-without-loose-members"
+                  ELSE o.obs
 
-Open(f) == /\ disk[f] # None /\ open' = [obs |-> disk[f], acc |-> {}] /\ UNCHANGED <<disk, layout>> /\ Ev([op |-> "open", f |-> f])
+Open(f) == /\ disk[f] # None /\ open' = [obs |-> disk[f], acc |-> {}] /\ UNCHANGED <<disk, layout, form>> /\ Ev([op |-> "open", f |-> f])
 Access(k) == /\ IsOpen /\ k \notin open.acc
-             /\ open' = [obs |-> Touched(open.obs, k), acc |-> open.acc \cup {k}] /\ UNCHANGED <<disk, layout>> /\ Ev([op |-> "access", k |-> k])
-Save(g) == /\ IsOpen /\ disk' = [disk EXCEPT ![g] = Written(open)] /\ layout' = [layout EXCEPT ![g] = <<>>]
-           /\ UNCHANGED open /\ Ev([op |-> "save", f |-> g])
+             /\ open' = [obs |-> Touched(open.obs, k), acc |-> open.acc \cup {k}] /\ UNCHANGED <<disk, layout, form>> /\ Ev([op |-> "access", k |-> k])
+Crossing(g, fm) == disk[g] # None /\ form[g] # fm
+Save(g, fm) == /\ IsOpen /\ ~Crossing(g, fm)
+               /\ disk' = [disk EXCEPT ![g] = Written(open, fm)] /\ layout' = [layout EXCEPT ![g] = <<>>] /\ form' = [form EXCEPT ![g] = fm]
+               /\ UNCHANGED open /\ Ev([op |-> "save", f |-> g, fm |-> fm])
+\* writing one form over the other is refused and leaves the file as it was
+Refused(g, fm) == /\ IsOpen /\ Crossing(g, fm) /\ UNCHANGED <<disk, layout, form, open>> /\ Ev([op |-> "refused", f |-> g, fm |-> fm])
 \* a meaning-preserving rewrite of the file's layout (C06): objects unchanged, bytes different
 Rewrite(f, w) == /\ disk[f] # None /\ Len(layout[f]) < 2 /\ layout' = [layout EXCEPT ![f] = Append(@, w)]
-                 /\ UNCHANGED <<disk, open>> /\ Ev([op |-> "rewrite", f |-> f, w |-> w])
+                 /\ UNCHANGED <<disk, form, open>> /\ Ev([op |-> "rewrite", f |-> f, w |-> w])
 
-Init == /\ disk = [f \in Files |-> IF f = "src" THEN Orig ELSE None] /\ layout = [f \in Files |-> <<>>] /\ open = Closed /\ hist = <<>>
+Init == /\ disk = [f \in Files |-> IF f = "src" THEN Orig ELSE None] /\ layout = [f \in Files |-> <<>>]
+        /\ form = [f \in Files |-> "zip"] /\ open = Closed /\ hist = <<>>
 Next == \/ \E f \in Files : Open(f)
         \/ \E k \in Kinds : Access(k)
-        \/ \E g \in Files \ {"src"} : Save(g)
+        \/ \E g \in Files \ {"src"}, fm \in Forms : Save(g, fm) \/ Refused(g, fm)
         \/ \E f \in Files, w \in Rewrites : Rewrite(f, w)
 Spec == Init /\ [][Next]_vars
 Depth == TLCGet("level") <= D
-NoHist == <<disk, layout, open>>
+NoHist == <<disk, layout, form, open>>
 
 Idempotent == \A f \in Files : disk[f] \in {None, Orig}
 AccessIsReadOnly == IsOpen => open.obs = Orig
 LastEv == hist'[Len(hist')]
 SaveIsIdentity == [][LastEv.op = "save" => disk'[LastEv.f] = open.obs]_vars
 LayoutBlind == [][LastEv.op = "rewrite" => disk' = disk]_vars
+FormBlind == \A f, g \in Files : disk[f] # None /\ disk[g] # None => disk[f] = disk[g]     \* whatever the forms of f and g
+RefusalKeeps == [][LastEv.op = "refused" => disk' = disk /\ form' = form]_vars
 ====
